@@ -322,6 +322,8 @@ class Fn:
                         return ("const", c.get("int", c.get("text")))
                 if "agg" in rv and isinstance(rv["agg"], dict) and "adt" in rv["agg"]:
                     a = rv["agg"]
+                    if a.get("is_enum"):
+                        return ("agg", a["adt"].rsplit("::", 1)[-1] + "::" + a["variant"], (), a.get("discr"))
                     return ("agg", a["adt"].rsplit("::", 1)[-1] + "::" + a["variant"], ())
                 if "agg" in rv:
                     return ("agg", str(rv["agg"]), ())
